@@ -73,7 +73,18 @@ def step' (w : W) (line : String) : W × String :=
   | ["close", _, sl] =>
     match kv sl "slot" with
     | none => (w, "bad-op")
-    | some k => fin (apply w k [.detach, .unused, .reset, .freeable]) "ok"
+    | some k => fin (apply w k [.detach, .unused, .reset, .freeable, .closeFd (getSlot w k).gen]) "ok"
+  | ["dclose", _, sl] =>
+    -- the owner's Close() overlaps the dispatch: detach while the poller holds the token, `unused()` only after `done()`,
+    -- the descriptor closed last; the probe descriptor opened in between can therefore not have got the number
+    match kv sl "slot" with
+    | none => (w, "bad-op")
+    | some k =>
+      let s := getSlot w k
+      let owner := (w.conns.find? (fun (_, sl, g) => sl == k && some g == s.cbGen)).map (·.1)
+      let w := apply w k [.doEv, .detach, .doneEv, .unused, .reset, .freeable, .closeFd s.gen]
+      let ran := match owner with | some id => toString id | none => "?"
+      fin w s!"ok ran={ran} probe=intact"
   | ["stale", id, what, sl] =>
     match kv sl "slot", w.conns.find? (·.1 == toNat! id) with
     | some k, some (_, _, g) =>
